@@ -50,6 +50,7 @@ def check(repo, tier="quick"):
     res.rule("C20.a", "no bit is emitted for a rejected value: an OutOfRangeError guard dominates the first write in write_nbits/write_bitarray/write_bytes/write_uint, and exp_golomb_length rejects negatives")
     res.rule("C20.b", "bounded-block bookkeeping (begin/end/bits_remaining/seek preamble/decrement-and-test) is the same program in reader and writer; past-the-end arms are `return 1` vs `raise ValueError iff value is 0`")
     res.rule("C20.c", "bit order and byte advance mirror each other: MSB-first fixed-width integers, shared _next_bit discipline, zero padding to the declared length")
+    res.rule("C20.g", "the partially written byte: BitstreamWriter.flush writes the current byte exactly when bits have been written into it (_next_bit != 7) and steps the file back over it; BitstreamWriter.seek calls flush() before it moves the file position and only afterwards resets _byte_offset (from the file), _current_byte (0) and _next_bit (the requested bit) -- so what the reader finds at a position is what was written there")
     res.rule("C20.e", "single bit-level layer: the file and the position/accounting fields (_byte_offset, _current_byte, _next_bit, _bits_remaining) are touched only by the primitives (__init__, _read_byte/_write_byte, read_bit/write_bit, seek, flush, bounded_block_begin/end); every multi-bit reader/writer moves data only through read_bit/write_bit, so bounded-block accounting and reader/writer agreement apply to all of them")
     res.rule("C20.d", "signed codes: write_sint = write_uint(abs(v)) + sign bit iff v != 0, read_sint reads the sign iff the magnitude is non-zero, signed length = unsigned length of abs(v) + 1 iff v != 0; exp_golomb_length counts the bits of write_uint's loop")
 
@@ -63,6 +64,8 @@ def check(repo, tier="quick"):
     rule_c(repo, res, R, W, where)
     rule_d(repo, res, R, W, where)
     rule_e(repo, res, R, W, where)
+    rule_g(repo, res, R, W, where)
+    res.floor("C20.g", 4)
     from .. import lints as _lints
 
     _lints.rule(repo, res, "C20.f", ['bitstream.io', 'bitstream.exp_golomb'])
@@ -350,3 +353,56 @@ def rule_e(repo, res, R, W, where):
                 res.ok("C20.e", "%s.%s:primitive" % (cname, name), w, by="member of the bit-level layer")
             else:
                 res.check(not touched, "C20.e", "%s.%s:goes-through-%s" % (cname, name, bitfn), w, "%s.%s is not a bit-level primitive but performs %s: data moved this way bypasses %s's bounded-block accounting and the mirrored reader/writer discipline" % (cname, name, sorted(set(touched)), bitfn), by="no direct access to the file or the position fields")
+
+
+def rule_g(repo, res, R, W, where):
+    from ..core import pmatch
+
+    seek = W.get("seek")
+    flush = W.get("flush")
+    if seek is None or flush is None:
+        raise AnalysisError("anchor vanished: BitstreamWriter.seek / flush")
+    bytes_p, bits_p = [a.arg for a in seek.args.args[1:3]]
+    body = strip_doc(seek)
+    idx = {}
+    for i, s in enumerate(body):
+        if pmatch("self.flush()", s) is not None:
+            idx.setdefault("flush", i)
+        if pmatch("self._file.seek(%s)" % bytes_p, s) is not None:
+            idx.setdefault("fseek", i)
+        if pmatch("self._byte_offset = self._file.tell()", s) is not None or pmatch("self._byte_offset = %s" % bytes_p, s) is not None:
+            idx.setdefault("off", i)
+        if pmatch("self._current_byte = 0", s) is not None:
+            idx.setdefault("cur", i)
+        if pmatch("self._next_bit = %s" % bits_p, s) is not None:
+            idx.setdefault("bit", i)
+    n_fseek = sum(1 for c in ast.walk(seek) if isinstance(c, ast.Call) and dotted(c.func) == "self._file.seek")
+    n_flush = sum(1 for c in ast.walk(seek) if isinstance(c, ast.Call) and dotted(c.func) == "self.flush")
+    ok = set(idx) == {"flush", "fseek", "off", "cur", "bit"} and idx["flush"] < idx["fseek"] < min(idx["off"], idx["cur"], idx["bit"]) and n_fseek == 1 and n_flush == 1
+    res.check(ok, "C20.g", "writer.seek:flush-then-move-then-reset", "%s:BitstreamWriter.seek" % where, "seek must, unconditionally and in this order, flush() the pending byte, move the file (self._file.seek(bytes)) and only then reset _byte_offset, _current_byte = 0 and _next_bit = bits (order found: %s): flushing after the move writes the pending byte at the target instead of its own position" % sorted(idx, key=idx.get), by="flush < file.seek < field resets, each once at the top level")
+    fb = strip_doc(flush)
+    ok = False
+    if len(fb) == 2 and isinstance(fb[0], ast.If) and not fb[0].orelse and norm(fb[0].test) in ("self._next_bit != 7", "self._next_bit < 7", "7 != self._next_bit"):
+        inner = fb[0].body
+        ok = len(inner) == 2 and pmatch("self._file.write(bytearray([self._current_byte]))", inner[0]) is not None and (pmatch("self._file.seek(-1, 1)", inner[1]) is not None or pmatch("self._file.seek(-1, os.SEEK_CUR)", inner[1]) is not None) and pmatch("self._file.flush()", fb[1]) is not None
+    res.check(ok, "C20.g", "writer.flush:writes-pending-byte-and-steps-back", "%s:BitstreamWriter.flush" % where, "flush must write the current byte iff _next_bit != 7, seek back one byte (so later bits extend the same byte) and flush the file", by="if _next_bit != 7: write current byte; seek(-1, 1)")
+    # the reader's seek: moves the file, then loads the byte at the target and positions the bit
+    rseek = R.get("seek")
+    if rseek is None:
+        raise AnalysisError("anchor vanished: BitstreamReader.seek")
+    rb_, rbits = [a.arg for a in rseek.args.args[1:3]]
+    body = strip_doc(rseek)
+    idx = {}
+    for i, s in enumerate(body):
+        if pmatch("self._file.seek(%s)" % rb_, s) is not None:
+            idx.setdefault("fseek", i)
+        if pmatch("self._read_byte()", s) is not None:
+            idx.setdefault("load", i)
+        if pmatch("self._next_bit = %s" % rbits, s) is not None:
+            idx.setdefault("bit", i)
+    ok = set(idx) == {"fseek", "load", "bit"} and idx["fseek"] < idx["load"] < idx["bit"]
+    res.check(ok, "C20.g", "reader.seek:move-load-position", "%s:BitstreamReader.seek" % where, "the reader's seek must move the file, load the byte at the target (_read_byte) and then set _next_bit = bits (found %s)" % sorted(idx, key=idx.get), by="file.seek < _read_byte < _next_bit = bits")
+    # write_bit / _write_byte: a completed byte goes to the file exactly once
+    wb = W.get("_write_byte")
+    ok = wb is not None and sum(1 for c in ast.walk(wb) if isinstance(c, ast.Call) and dotted(c.func) == "self._file.write") == 1
+    res.check(ok, "C20.g", "writer._write_byte:single-write", "%s:BitstreamWriter._write_byte" % where, "_write_byte must write the completed byte to the file exactly once", by="one self._file.write")
